@@ -33,3 +33,34 @@ pub mod gen;
 #[cfg(kani)]
 #[path = "/verif/kani/harness_lib.rs"]
 mod harness;
+
+/// KeyHasher for harnesses: the hash of a u8 key is the key itself (hash values are symbolic anyway)
+#[derive(Clone, Copy, Default)]
+pub struct ByteKeyHasher;
+pub struct ByteState(pub u64);
+impl core::hash::Hasher for ByteState {
+    fn finish(&self) -> u64 {
+        self.0
+    }
+    fn write(&mut self, bytes: &[u8]) {
+        let mut i = 0;
+        while i < bytes.len() {
+            self.0 = (self.0 << 8) | bytes[i] as u64;
+            i += 1;
+        }
+    }
+    fn write_u8(&mut self, i: u8) {
+        self.0 = (self.0 << 8) | i as u64;
+    }
+}
+impl crate::lfu::KeyHasher<u8> for ByteKeyHasher {
+    fn hash_key<Q>(&self, key: &Q) -> u64
+    where
+        u8: core::borrow::Borrow<Q>,
+        Q: core::hash::Hash + Eq + ?Sized,
+    {
+        let mut s = ByteState(0);
+        key.hash(&mut s);
+        core::hash::Hasher::finish(&s)
+    }
+}
